@@ -17,6 +17,7 @@ Statement of the property, clause by clause:
 Float-typed numbers and numbers that carry source text are outside `Covered` and are checked by the
 correspondence run only (DESIGN section 3: floating point is never reasoned about).
 -/
+import OccaProofs.Lemmas.JsonGenTie
 import OccaProofs.Lemmas.JsonRoundtrip
 import OccaModel.Hash
 
@@ -61,23 +62,8 @@ theorem C24_roundtrip_load (v : Json) (hv : Covered v) (ind cur rest : Bytes) (n
 
 /-- the recursion budget `parse` uses is enough for every dumped covered value -/
 theorem C24_fuel_suffices (v : Json) (hv : Covered v) (ind cur : Bytes) :
-    need v ≤ parseFuel (dump ind cur v).length := by
-  have := bound_val v hv ind cur
-  unfold parseFuel; omega
-
-theorem allWs_replicate (n : Nat) : AllWs (List.replicate n cSp) := by
-  intro c hc
-  rw [List.eq_of_mem_replicate hc]; decide
-
-theorem parse_dump (v : Json) (hv : Covered v) (hn : NulFree v) (ind : Bytes) (hi : AllWs ind) :
-    ∃ v', parse (dump ind [] v) = .ok v' ∧ jsonEq v v' = true := by
-  have hnn := noNul_dump v hv hn ind [] hi allWs_nil
-  obtain ⟨v', hl, he⟩ := rt_val v hv ind [] [] (parseFuel (dump ind [] v).length) hi allWs_nil (Or.inl rfl)
-    (C24_fuel_suffices v hv ind [])
-  refine ⟨v', ?_, he⟩
-  simp only [List.append_nil] at hl
-  unfold parse
-  simp only [cstr_of_noNul hnn, hl]
+    need v ≤ parseFuel (dump ind cur v).length :=
+  fuel_suffices v hv ind cur
 
 /-- clause (a): `json::parse(v.dump(indent))` succeeds and is == v, for every indentation
     (negative = the default 2) and every covered value without NUL bytes -/
